@@ -177,6 +177,7 @@ type state struct {
 	tree  *urltree.URLTree[int]
 	flows []flowSpec
 	ft    internaltypes.FilterTreeI
+	eng   *engState
 }
 
 func safeAdd(ft internaltypes.FilterTreeI, fl internaltypes.FlowI) (res string) {
@@ -284,6 +285,7 @@ func (t txn) stream(id string) publictypes.APIStreamI {
 func exec(c proto.Case, o *proto.Out) []string {
 	outs := make([]string, len(c.Ops))
 	st := &state{tree: urltree.NewURLTree[int](false, 0)}
+	defer st.closeEngine()
 	some, none := 0, 0
 	for i, op := range c.Ops {
 		w := strings.Fields(op)
@@ -354,6 +356,21 @@ func exec(c proto.Case, o *proto.Out) []string {
 				}
 			}
 			outs[i] = "r=" + strings.Join(rs, ",")
+		case w[0] == "eng" && len(w) >= 2 && w[1] == "req":
+			t, ok := parseTxn(false, w[2:])
+			if !ok {
+				outs[i] = "bad-op"
+				break
+			}
+			outs[i] = st.engReq(t, fmt.Sprintf("e%d", i), o)
+			switch {
+			case strings.Contains(outs[i], "|"):
+				o.Count("eng-order-dependent")
+			case strings.HasPrefix(outs[i], "poss=- "):
+				o.Count("eng-none")
+			default:
+				o.Count("eng-selected")
+			}
 		case w[0] == "req" || w[0] == "res":
 			t, ok := parseTxn(w[0] == "res", w[1:])
 			if !ok {
